@@ -88,7 +88,15 @@ class Check(BaseCheck):
         # dispatch
         class Other:
             pass
-        for obj, name in ((mk("tri", *gen.grid(2, 2)), "TriaMesh"), (mk("tet", *gen.cube5()), "TetMesh"), (Other(), "Other"), (None, "NoneType")):
+        def lookalike(nm, tet=False):
+            """an object of a foreign class with mesh-like attributes whose type NAME merely resembles a supported one"""
+            src = mk("tet", *gen.cube5()) if tet else mk("tri", *gen.grid(2, 2))
+            o = type(nm, (), {})()
+            o.v, o.t = np.array(src.v), np.array(src.t)
+            return o
+        for obj, name in ((mk("tri", *gen.grid(2, 2)), "TriaMesh"), (mk("tet", *gen.cube5()), "TetMesh"), (Other(), "Other"), (None, "NoneType"),
+                          (lookalike("Mesh", True), "Mesh"), (lookalike("Tria"), "Tria"), (lookalike("Tet"), "Tet"), (lookalike("TriaMesh2"), "TriaMesh2"),
+                          (lookalike("triamesh"), "triamesh")):
             r = drv.ask("dispatch " + name)
             for fn in (diffgeo.compute_gradient, diffgeo.compute_divergence):
                 res = core.call(fn, obj, np.zeros((len(obj.v) if hasattr(obj, "v") else 1,)) if fn is diffgeo.compute_gradient
@@ -96,7 +104,8 @@ class Check(BaseCheck):
                 got = "ok " + ("tri" if name == "TriaMesh" else "tet") if res[0] == "ok" else "err " + res[1]
                 stats.case("dispatch" + name + fn.__name__, cls="dispatch")
                 if got != r:
-                    fails.append(core.Failure("correspondence", "dispatch of %s" % fn.__name__, "type %s: impl %s model %s" % (name, got, r)))
+                    fails.append(core.Failure("correspondence", "dispatch of %s" % fn.__name__, "type %s: impl %s model %s" % (name, got, r),
+                                              dict(kind="dispatch", name=name, fn=fn.__name__)))
         return fails
 
     # ---- oracle
@@ -124,6 +133,18 @@ class Check(BaseCheck):
                            vint=bool(c.get("vdtype") == "int64" and corr_fem.SCALES[kk % len(corr_fem.SCALES)] == 1.0))
 
     def oracle(self, case):
+        if case.get("kind") == "dispatch":
+            nm = case["name"]
+            if nm in ("TriaMesh", "TetMesh", "NoneType"):
+                return None
+            src = mk("tet", *gen.cube5()) if nm == "Mesh" else mk("tri", *gen.grid(2, 2))
+            o = type(nm, (), {})()
+            o.v, o.t = np.array(src.v), np.array(src.t)
+            for fn, arg in ((diffgeo.compute_gradient, np.zeros(len(o.v))), (diffgeo.compute_divergence, np.zeros((len(o.t), 3)))):
+                res = core.call(fn, o, arg)
+                if not (res[0] == "err" and res[1] == "ValueError"):
+                    return core.Violation("dispatch", "%s does not reject an object of the foreign class `%s` with ValueError: %s" % (fn.__name__, nm, res[0] if res[0] == "ok" else res[1]), case)
+            return None
         kind = case["kind"]
         v = np.asarray(case["v"], float); t = np.asarray(case["t"], dtype=np.int64)
         f = np.asarray(case["f"], float); X = np.asarray(case["X"], float)
